@@ -66,7 +66,8 @@ func c15Classes(tier string) []c15Class {
 			cs = append(cs, c15Class{t, kind, pri})
 		}
 	}
-	add("dot", 1, `.`, `(?s:.)`)
+	add("dot", 1, `.`)
+	add("dot", 5, `(?s:.)`)
 	add("perl", 2, `\W`, `\d`)
 	add("perl", 0, `\D`, `\w`, `\s`, `\S`)
 	posix := []string{"alnum", "alpha", "ascii", "blank", "cntrl", "digit", "graph", "lower", "print", "punct", "space", "upper", "word", "xdigit"}
@@ -102,12 +103,19 @@ func c15Classes(tier string) []c15Class {
 	add("hand", 0, `[a-z]`, `[^a-z]`, `[a-zA-Z0-9_]`, `[\x00-\x7F]`, `[\x{800}-\x{FFFF}]`, `[\x{100}-\x{2000}]`, `[\x{3FF}-\x{1234}]`,
 		`[α-ω]`, `[а-яё]`, `[a\x{80}]`, `[\x{7F}\x{80}\x{7FF}\x{800}\x{FFFF}\x{10000}\x{10FFFF}]`, `(?i)[k]`, `(?i)[a-z]`, `(?i)[σ]`,
 		`[^\x{80}-\x{10FFFF}]`, `[^\x{800}-\x{FFFF}]`, `[^\x{0}-\x{FFFF}]`, `[\x{0}-\x{D7FF}\x{E000}-\x{10FFFF}]`, `[^α]`, `[^€]`, `[^\x{1F600}]`)
-	add("literal", 4, `€`, `é`)
+	add("literal", 4, `€`)
+	add("literal", 6, `é`)
 	add("literal", 6, `a`, `\n`, `\x00`, `\x7F`, `\x{80}`, `\x{7FF}`, `\x{800}`, `\x{FFFF}`, `\x{10000}`, `😀`, `\x{10FFFF}`,
-		`\x{D7FF}`, `\x{E000}`, `\x{FFFD}`, `\x{D800}`, `\x{DFFF}`)
+		`\x{D7FF}`, `\x{E000}`, `\x{FFFD}`)
+	// (a literal surrogate such as \x{D800} is left out: regexp itself turns the literal into
+	// the string "\uFFFD" for its prefix matcher, so `^\x{D800}$` matches U+FFFD there)
 	add("fold", 4, `(?i:k)`, `(?i:é)`)
 	add("fold", 6, `(?i:K)`, `(?i:\x{212A})`, `(?i:s)`, `(?i:ſ)`, `(?i:É)`, `(?i:я)`, `(?i:σ)`, `(?i:ς)`, `(?i:ǅ)`, `(?i:ß)`, `(?i:ẞ)`,
 		`(?i:a)`, `(?i:Z)`, `(?i:1)`, `(?i:µ)`, `(?i:å)`, `(?i:Ω)`)
+	// two runes in a row: the pieces of one encoding must not be taken for two runes
+	for _, t := range []string{`\W`, `\D`, `\S`, `.`, `(?s:.)`, `[^a]`, `[^\n]`, `[\x{80}-\x{10FFFF}]`, `[^\x00-\x7F]`, `\PL`, `[\x{FFFD}]`} {
+		add("pair", 0, `(?:`+t+`)(?:`+t+`)`)
+	}
 	return cs
 }
 
@@ -636,6 +644,8 @@ func c15Main(args []string) int {
 		f.WriteString("(* per automaton: (id, class_check, first_failure witness) *)\n")
 		f.WriteString("Definition R := Eval vm_compute in run_cases cases.\nPrint R.\n")
 		f.WriteString("Definition M := Eval vm_compute in failing R.\nPrint M.\n")
+		f.WriteString("(* failing automata: the witness of each phase (single bytes; code points; anything else accepted) *)\n")
+		f.WriteString("Definition W := Eval vm_compute in map (fun c => (c_id c, phase_failures (c_nfa c) (c_ranges c))) (filter (fun c => existsb (N.eqb (c_id c)) M) cases).\nPrint W.\n")
 		name := *out
 		if nsh > 1 {
 			name = strings.TrimSuffix(*out, ".v") + fmt.Sprintf("_%d.v", s)
@@ -670,7 +680,8 @@ func c15RunClass(ci int, cls c15Class, modes []c15Mode, in *c15Inputs) ([]*c15Re
 		return nil, fmt.Sprintf("syntax rejects %s: %v", cls.text, err), nil
 	}
 	ranges, ok := c15Ranges(re)
-	if !ok {
+	pair := cls.kind == "pair"
+	if !ok && !pair {
 		return nil, fmt.Sprintf("not a one-rune node: %s parses to %v", cls.text, re.Op), nil
 	}
 	std, err := regexp.Compile("^(?:" + cls.text + ")$")
@@ -682,7 +693,7 @@ func c15RunClass(ci int, cls c15Class, modes []c15Mode, in *c15Inputs) ([]*c15Re
 	var specViol []violation
 	for i, b := range in.all {
 		want[i] = std.Match(b)
-		if c15Spec(ranges, b) != want[i] && len(specViol) < 2 {
+		if !pair && c15Spec(ranges, b) != want[i] && len(specViol) < 2 {
 			specViol = append(specViol, violation{Kind: "spec-model-vs-regexp", Case: ci,
 				Detail:   map[string]any{"pattern": cls.text, "input": hex.EncodeToString(b)},
 				Sig:      "spec|" + cls.text + "|" + hex.EncodeToString(b),
@@ -724,7 +735,11 @@ func c15RunClass(ci int, cls c15Class, modes []c15Mode, in *c15Inputs) ([]*c15Re
 			hx := hex.EncodeToString(b)
 			r.Witnesses = append(r.Witnesses, k+":"+hx)
 			dr, dw := utf8.DecodeRune(b)
-			r.viol = append(r.viol, violation{Kind: "automaton-vs-regexp/" + k,
+			vk := "automaton-vs-regexp/"
+			if pair {
+				vk = "pair-vs-regexp/"
+			}
+			r.viol = append(r.viol, violation{Kind: vk + k,
 				Detail: map[string]any{"pattern": cls.text, "mode": m.name, "input": hx, "states": r.States,
 					"decode": fmt.Sprintf("U+%04X width %d", dr, dw)},
 				Sig:      m.name + "|" + cls.text + "|" + hx,
